@@ -207,7 +207,13 @@ PropSeq(e) == e.ev = "bigseq" =>
           /\ h.nl = Len(h.raw) - 1
           /\ h.code = c
           /\ h.len = k.n * Width(c)
-InvSeq == l > 0 => PropSeq(E)
+\* very many small items in one list and one more list behind them: accepted, re-encoded to the same bytes, every header seen
+PropFlat(e) == e.ev = "bigflat" =>
+   LET per == IF e.kind = "L1B0" THEN 4 ELSE 2   hp == IF e.kind = "L1B0" THEN 2 ELSE 1 IN
+   /\ e.ok /\ e.same
+   /\ e.msglen = 14 + 2 + Len(ItemHeader(0, e.n)) + e.n * per + 5
+   /\ e.nh = 2 + e.n * hp + 2
+InvSeq == l > 0 => PropSeq(E) /\ PropFlat(E)
 InvExpect == l > 0 => PropExpect(E)
 InvC01 == l > 0 => PropC01(E)
 InvC02 == l > 0 => PropC02(E)
